@@ -284,7 +284,9 @@ _ALSO = {
             "taken above it, and no arithmetic overflows on the way (cases, not all literals); the number printer hands the sink "
             "exactly the text itoa / ryu produced (the shortest text that reads back as the same number), once, on every path.", None),
     "C07": ("no buffering writer (whose pending bytes would be flushed in Drop with the error discarded) is interposed on "
-            "the print path; local helpers that only forward to write_all count as the write_all they perform.", None),
+            "the print path; local helpers that only forward to write_all count as the write_all they perform; a method with a "
+            "`char` / `u8` parameter is compared with the default formatter's sub-range by sub-range of that parameter "
+            "(comparisons split the range per path).", None),
     "C08": ("for 240 (token text, option values) cases over representative letter-initial texts {nil, t, x, nil:, t:, x:, "
             "...} the token produced is exactly the documented one (postfix keyword first, then nil, then t, else symbol); "
             "parse_token may be split into loop-free helpers, the evaluation looks through them; on the leading-digit path "
@@ -327,7 +329,9 @@ _ALSO = {
             "end of input is reported with an Eof code (39 prefixes).", None),
     "C16": ("a hand-written Drop for a spine type may skip the detaching loop only on a test of the chain's own shape "
             "(a branch on anything else that returns with the tail attached hands the chain to the recursive drop glue); "
-            "the cdr of a cell reached through a car is an element's payload, not the spine.", None),
+            "the cdr of a cell reached through a car is an element's payload, not the spine; `meta[1]` of the span pair counts "
+            "as the cdr however the index is spelled, `meta[0]` and vector payloads as elements; passing a cdr to a callee "
+            "that continues only into its car does not follow the spine.", None),
     "C15": ("association-list lookup by name and by value, evaluated abstractly over six synthetic lists with concrete "
             "key texts (entries that are not pairs, duplicate keys, the same text under each name kind, a dotted tail, "
             "a non-list): the answer is the cdr of the first entry whose key matches - any name kind with that text "
